@@ -157,6 +157,24 @@ fn plus_one(v: u64, modulus: u64) -> u64 {
     if v >= modulus - 1 { 0 } else { v + 1 }
 }
 
+/// Field elements appear in two number forms: CANONICAL (`Fixture::pack` / `circuit_verify_packed`)
+/// and SERIALISED (the JSON tree; Montgomery form for BabyBear/KoalaBear). Serialisation is
+/// multiplication by `ser_one` = serialised(1) modulo p, so the canonical "+1" of a JSON leaf is
+/// "+ ser_one". (Checked at run time: every honest packed value, converted, must equal its leaf.)
+#[derive(Clone, Copy)]
+struct Repr {
+    modulus: u64,
+    ser_one: u64,
+}
+impl Repr {
+    fn canon_to_ser(&self, c: u64) -> u64 {
+        ((c as u128 * self.ser_one as u128) % self.modulus as u128) as u64
+    }
+    fn ser_plus_one(&self, v: u64) -> u64 {
+        ((v as u128 + self.ser_one as u128) % self.modulus as u128) as u64
+    }
+}
+
 /// The tree with every FIELD leaf replaced by a distinct tag; structural integers kept.
 /// `tag(k) = t0 + k` for the k-th field leaf in document order; `VERIF_SEED` rotates `t0` only.
 fn tag_tree(honest: &Value, all: &[Leaf], t0: u64) -> (Value, HashMap<u64, usize>, Vec<u64>) {
@@ -184,6 +202,27 @@ struct ClassRow {
     both_accept: u64,
     unconstrained: u64,
     circuit_stricter: u64,
+}
+
+/// How a site is perturbed. Quick: `PlusOne`. Thorough (and `--replay`): all three.
+#[derive(Clone, Copy, Debug, PartialEq, Eq)]
+enum Pert {
+    /// value + 1 (canonical)
+    PlusOne,
+    /// value <- 0 (skipped when it is 0 already)
+    Zero,
+    /// value <- the value of the next position of the same packed vector, same coefficient (the
+    /// off-by-one mis-ordering); for non-input leaves: the next leaf of the same class. Skipped when equal.
+    Neighbour,
+}
+impl Pert {
+    fn tag(&self) -> &'static str {
+        match self {
+            Pert::PlusOne => "+1",
+            Pert::Zero => "0",
+            Pert::Neighbour => "neighbour",
+        }
+    }
 }
 
 #[derive(Clone)]
@@ -235,7 +274,15 @@ fn describe(vals: &[u64], by_tag: &HashMap<u64, usize>, all: &[Leaf]) -> String 
 }
 
 /// All three clauses on one configuration. Returns the per-configuration evidence record.
-fn check_config(ctx: &Ctx, fx: &Fixture, sink: &Sink, verdicts: &Histo, totals: &Totals, samples: &Mutex<Vec<Value>>) -> Value {
+fn check_config(
+    ctx: &Ctx,
+    fx: &Fixture,
+    kinds: &[Pert],
+    sink: &Sink,
+    verdicts: &Histo,
+    totals: &Totals,
+    samples: &Mutex<Vec<Value>>,
+) -> Value {
     let t_start = Instant::now();
     let cfg = fx.name.clone();
     let d = fx.ext_degree;
@@ -269,6 +316,7 @@ fn check_config(ctx: &Ctx, fx: &Fixture, sink: &Sink, verdicts: &Histo, totals: 
     let (tagged, by_tag, tag_of) = tag_tree(honest, &all, t0);
     let pl: Placement =
         fx.placement(&tagged).unwrap_or_else(|e| machinery_error(&format!("{cfg}: placement observation failed: {e}")));
+    let repr = Repr { modulus: fx.modulus, ser_one: pl.ser_one };
     if pl.packed.public.len() != packed_h.public.len() || pl.packed.private.len() != packed_h.private.len() {
         machinery_error(&format!("{cfg}: packing the tagged object gives other lengths than packing the honest one"));
     }
@@ -478,36 +526,67 @@ fn check_config(ctx: &Ctx, fx: &Fixture, sink: &Sink, verdicts: &Histo, totals: 
     let both_accept_list: Mutex<Vec<Value>> = Mutex::new(vec![]);
     let (ev, nt, sk) = (AtomicU64::new(0), AtomicU64::new(0), AtomicU64::new(0));
     if phase3 {
-        totals.planned.fetch_add(sites.len() as u64, Ordering::Relaxed);
-        sites.par_iter().for_each(|site| {
+        let cases: Vec<(&Site, Pert)> = sites.iter().flat_map(|s| kinds.iter().map(move |k| (s, *k))).collect();
+        totals.planned.fetch_add(cases.len() as u64, Ordering::Relaxed);
+        cases.par_iter().for_each(|(site, kind)| {
             if ctx.out_of_time() {
                 sk.fetch_add(1, Ordering::Relaxed);
                 return;
             }
-            let (leaf_i, circuit_v, where_) = match site {
+            // (leaf, new serialised value of the leaf, circuit verdict, description of the site)
+            let (leaf_i, new_ser, circuit_v, where_) = match site {
                 Site::Packed { vec, pos, coeff, leaf } => {
                     let mut pk = packed_h.clone();
+                    let neighbour = {
+                        let v = if *vec == 0 { &packed_h.public } else { &packed_h.private };
+                        v.get(pos + 1).map(|n| n[*coeff])
+                    };
                     let cell = if *vec == 0 { &mut pk.public[*pos][*coeff] } else { &mut pk.private[*pos][*coeff] };
-                    if *cell != all[*leaf].value {
+                    if repr.canon_to_ser(*cell) != all[*leaf].value {
                         machinery_error(&format!(
-                            "{cfg}: {} position {pos} coefficient {coeff} holds {} in the honest packing but its leaf {} is {}",
+                            "{cfg}: {} position {pos} coefficient {coeff} holds {} (serialised) in the honest packing but its leaf {} is {}",
                             vec_name(*vec),
-                            *cell,
+                            repr.canon_to_ser(*cell),
                             path_string(&all[*leaf].path),
                             all[*leaf].value
                         ));
                     }
-                    *cell = plus_one(*cell, fx.modulus);
-                    (*leaf, fx.circuit_verify_packed(honest, &pk), json!({"vector": vec_name(*vec), "position": pos, "coefficient": coeff}))
+                    let new = match kind {
+                        Pert::PlusOne => plus_one(*cell, fx.modulus),
+                        Pert::Zero if *cell != 0 => 0,
+                        Pert::Neighbour if neighbour.is_some_and(|n| n != *cell) => neighbour.unwrap(),
+                        _ => return, // perturbation does not change the value
+                    };
+                    *cell = new;
+                    (
+                        *leaf,
+                        repr.canon_to_ser(new),
+                        fx.circuit_verify_packed(honest, &pk),
+                        json!({"vector": vec_name(*vec), "position": pos, "coefficient": coeff, "perturbation": kind.tag()}),
+                    )
                 }
                 Site::NotAnInput { leaf } => {
                     let l = &all[*leaf];
-                    let t = with_leaf(honest, &l.path, plus_one(l.value, fx.modulus));
-                    (*leaf, fx.circuit_verify_packed(&t, &packed_h), json!("not a circuit input (MMCS private datum): perturbed in the object"))
+                    let new_ser = match kind {
+                        Pert::PlusOne => repr.ser_plus_one(l.value),
+                        Pert::Zero if l.value != 0 => 0,
+                        Pert::Neighbour => match vpe4::faulted_value(l, *leaf, &all, vpe4::ValueFault::Neighbour, fx.modulus) {
+                            Some(v) => v,
+                            None => return,
+                        },
+                        _ => return,
+                    };
+                    let t = with_leaf(honest, &l.path, new_ser);
+                    (
+                        *leaf,
+                        new_ser,
+                        fx.circuit_verify_packed(&t, &packed_h),
+                        json!({"not_a_circuit_input": "MMCS private datum, perturbed in the object", "perturbation": kind.tag()}),
+                    )
                 }
             };
             let l = &all[leaf_i];
-            let tree = with_leaf(honest, &l.path, plus_one(l.value, fx.modulus));
+            let tree = with_leaf(honest, &l.path, new_ser);
             let native_v = fx.native_verify(&tree);
             ev.fetch_add(1, Ordering::Relaxed);
             verdicts.add(&format!("{}|{}", native_v.tag(), circuit_v.tag()));
@@ -516,7 +595,7 @@ fn check_config(ctx: &Ctx, fx: &Fixture, sink: &Sink, verdicts: &Histo, totals: 
             }
             let case = || {
                 json!({"config": cfg, "clause": "every_input_matters", "site": where_, "leaf": path_string(&l.path), "class": l.class,
-                       "old_value": l.value, "native": native_v.to_json(), "circuit": circuit_v.to_json()})
+                       "old_value": l.value, "new_value": new_ser, "native": native_v.to_json(), "circuit": circuit_v.to_json()})
             };
             let mut g = classes.lock().unwrap();
             let row = g.entry(l.class.clone()).or_default();
@@ -543,8 +622,10 @@ fn check_config(ctx: &Ctx, fx: &Fixture, sink: &Sink, verdicts: &Histo, totals: 
                     sink.violation(
                         format!("{cfg}|{}|{clause}", l.class),
                         format!(
-                            "{cfg}: {} +1 ({}): native verifier {} but the circuit accepts the perturbed input",
+                            "{cfg}: {} {}→{} ({}): native verifier {} but the circuit accepts the perturbed input",
                             path_string(&l.path),
+                            l.value,
+                            new_ser,
                             where_,
                             native_v.tag()
                         ),
@@ -565,9 +646,10 @@ fn check_config(ctx: &Ctx, fx: &Fixture, sink: &Sink, verdicts: &Histo, totals: 
                 }
             }
         });
-        // listed, not judged: the first extension coefficient of positions whose extension part
-        // carries no proof leaf (lifted base-field values) — does the circuit notice a non-base value?
-        let probes: Vec<&(usize, usize, usize)> = unmapped.iter().filter(|(_, _, c)| *c == 1).collect();
+        // listed, not judged: the first (thorough: every) extension coefficient of positions whose
+        // extension part carries no proof leaf (lifted base-field values) — does the circuit notice
+        // a non-base value?
+        let probes: Vec<&(usize, usize, usize)> = unmapped.iter().filter(|(_, _, c)| *c == 1 || kinds.len() > 1).collect();
         probes.par_iter().for_each(|(vi, pos, c)| {
             if ctx.out_of_time() || (ctx.quick() && ctx.used() > 0.8) {
                 return;
@@ -648,7 +730,7 @@ fn check_config(ctx: &Ctx, fx: &Fixture, sink: &Sink, verdicts: &Histo, totals: 
             "judged": evn, "native_reject": nt.load(Ordering::Relaxed), "skipped_out_of_time": sk.load(Ordering::Relaxed),
             "per_class[evals,native_reject,both_accept,unconstrained,circuit_stricter]": class_json,
             "both_accept_samples": both_accept_list.into_inner().unwrap(),
-            "listed_not_judged:first_extension_coefficient_of_lifted_base_values": nonbase_json,
+            "listed_not_judged:extension_coefficients_of_lifted_base_values(+1)": nonbase_json,
         },
         "circuit": fx.stats.to_json(),
         "wall_s": t_start.elapsed().as_secs_f64(),
@@ -690,7 +772,7 @@ fn main() {
         let spec = all_specs().into_iter().find(|s| s.name == cfg).unwrap_or_else(|| machinery_error(&format!("replay: unknown config {cfg}")));
         let fx = make(&spec);
         let sink = Sink { report: &report, only_key: full["key"].as_str().map(|s| s.to_string()) };
-        let rec = check_config(&ctx, &fx, &sink, &verdicts, &totals, &samples);
+        let rec = check_config(&ctx, &fx, &[Pert::PlusOne, Pert::Zero, Pert::Neighbour], &sink, &verdicts, &totals, &samples);
         println!("replayed {cfg} (key filter {:?}): {} violating key(s)", sink.only_key, report.distinct());
         let cov = json!({"evaluations": totals.evaluations.load(Ordering::Relaxed).max(1),
             "distinct_nontrivial": totals.nontrivial.load(Ordering::Relaxed).max(2),
@@ -704,7 +786,7 @@ fn main() {
         .into_iter()
         .filter(|s| match &filter {
             Some(f) => s.name.contains(f.as_str()),
-            None => !ctx.quick() || s.quick,
+            None => true,
         })
         .collect();
     // cheap cross-section first, so that a slow machine loses the tail
@@ -714,6 +796,7 @@ fn main() {
     }
     let n_specs = specs.len();
     let sink = Sink { report: &report, only_key: None };
+    let kinds: Vec<Pert> = if ctx.quick() { vec![Pert::PlusOne] } else { vec![Pert::PlusOne, Pert::Zero, Pert::Neighbour] };
     let mut per_config = vec![];
     let mut exhaustive = true;
     let mut done = 0usize;
@@ -723,7 +806,7 @@ fn main() {
             break;
         }
         let fx = make(spec);
-        per_config.push(check_config(&ctx, &fx, &sink, &verdicts, &totals, &samples));
+        per_config.push(check_config(&ctx, &fx, &kinds, &sink, &verdicts, &totals, &samples));
         done += 1;
         release(&fx);
     }
@@ -742,12 +825,15 @@ fn main() {
         "rule": "one evaluation = one (input position, basis coefficient) of the honest packed public/private vectors carrying a proof \
                  leaf — or one proof leaf that is not a circuit input (MMCS sibling digest) — perturbed by +1 and judged by BOTH the \
                  verification circuit (on the perturbed packed vector / object) and the native verifier (on the proof with the same \
-                 leaf +1); distinct = distinct (configuration, site); non-trivial = the native verifier REJECTS, so the circuit's \
+                 leaf changed identically); quick: +1; thorough: +1, ←0, ←value of the next position (skipped when that changes nothing); \
+                 distinct = distinct (configuration, site, perturbation); non-trivial = the native verifier REJECTS, so the circuit's \
                  rejection shows the input is wired to a check. Placement pairs and length comparisons are counted separately \
                  (targets_checked_for_placement, configurations_done × 2 lengths)",
         "exhaustive": exhaustive,
-        "space": "configurations (E4 catalogue; quick: its quick cross-section; + the extra shapes of this check) × {2 lengths, every \
-                  target of the public target structures, every (position, coefficient) of both packed vectors, every non-input field leaf}",
+        "space": "configurations (the whole E4 catalogue + the extra shapes of this check, both tiers) × {2 lengths, every target of \
+                  the public target structures, every (position, coefficient) of both packed vectors × perturbations, every non-input \
+                  field leaf × perturbations}; perturbations: quick {+1}, thorough {+1, 0, neighbour}",
+        "perturbations": kinds.iter().map(|k| k.tag()).collect::<Vec<_>>(),
         "configurations_planned": n_specs,
         "configurations_done": done,
         "targets_checked_for_placement": totals.pairs_checked.load(Ordering::Relaxed),
@@ -764,7 +850,7 @@ fn main() {
          per-instance batch targets and the common-data commitment targets are pub(crate): the former are reached through the public \
          flattened aggregate (same ExprIds), the latter is paired by elimination (the public input positions no walked target claims, in order)"
             .to_string(),
-        "single perturbations, value +1 only; the circuit verdict is the runner outcome on the given inputs (satisfiability by other \
+        "single perturbations (+1; thorough also 0 and the neighbouring position's value); the circuit verdict is the runner outcome on the given inputs (satisfiability by other \
          private witnesses is C04/C06 territory)"
             .to_string(),
         "configurations whose honest proof the circuit rejects (C01 known findings F1 uni+hiding, F2 uneven commitment rounds) have no \
